@@ -626,6 +626,19 @@ def reducer(p: Project):
             inner = st
     if inner is None:
         raise AnalysisError("M2: reducer function not found in _convert")
+    # helpers the reducer calls (sibling closures of _convert, private module-level functions) are inlined, so that
+    # the rules see one function; a reducer that calls none is analysed as written
+    siblings = {st.name for st in ast.walk(outer) if isinstance(st, ast.FunctionDef) and st is not outer and st is not inner}
+    mod = p.module(BASE)
+    calls_helper = any(isinstance(c, ast.Call) and isinstance(c.func, ast.Name) and (c.func.id in siblings or (c.func.id.startswith("_") and isinstance(p.resolve(BASE, c.func.id), Func))) for c in ast.walk(inner))
+    if calls_helper:
+        cache = p.__dict__.setdefault("_flat_reducer", {})
+        if "inner" not in cache:
+            from . import canon
+            from .flat import resolver
+
+            cache["inner"] = canon.canonical(inner, resolver(p, BASE, p.get_class(BASE, "Aggregate"), scope_fn=outer), keep=lambda n: False, depth=2)
+        inner = cache["inner"]
     return outer, inner, call
 
 
